@@ -16,7 +16,10 @@ RULE = ("every SchedulingSolution returned for: the C02 resource catalogue (work
 ASSUMPTIONS = ["without start_time the calendar fields are not judged (the solution model types them as datetimes)"]
 EXHAUSTIVE = {"quick": False, "thorough": False}
 
-CAL = [{}, {"delta_minutes": 15}, {"delta_minutes": 30, "start_time": "2024-03-01T08:00:00"}]
+CAL = [{}, {"delta_minutes": 15}, {"delta_minutes": 30, "start_time": "2024-03-01T08:00:00"},
+       # steps of a day and more (timedelta keeps days apart from seconds), across a month end and a leap day
+       {"delta_minutes": 1440, "start_time": "2024-02-27T00:00:00"}, {"delta_minutes": 2160},
+       {"delta_minutes": 10080, "start_time": "2023-12-20T06:30:00"}]
 
 
 def generate(tier, seed):
@@ -35,7 +38,7 @@ def generate(tier, seed):
         # horizon absent: free solves, default and random models
         s3 = copy.deepcopy(spec)
         s3["problem"].pop("horizon", None)
-        s3["problem"].update(CAL[idx % 3])
+        s3["problem"].update(CAL[idx % len(CAL)])
         for j, cfg in enumerate(({}, {"random_values": True}, {"random_values": True})):
             if tier == "quick" and j == 2:
                 continue
@@ -46,7 +49,7 @@ def generate(tier, seed):
         r = random.Random(f"{seed}-c11-mix-{i}")
         spec = gen.random_spec(r, n_tasks=r.randint(2, 4), profile={"selection": 0.5, "cumulative": 0.5,
                                                                     "optional": 0.4, "buffers": 0.3})
-        spec["problem"].update(CAL[i % 3])
+        spec["problem"].update(CAL[i % len(CAL)])
         cases.append({"cid": f"mix-grid-{i}", "family": "mixture", "kind": "grid", "spec": spec, "wide": False,
                       "only": ["valid", "band"], "limit": 15 if tier == "quick" else 100, "rng": seed * 1000 + i})
         cases.append({"cid": f"mix-free-{i}", "family": "mixture-free", "kind": "solve", "spec": spec,
